@@ -359,6 +359,11 @@ func genC12Reqs(r *rng, n int) []c12Req {
 		{Kind: "Insert", Tag: "malformed-dataset-id", Ds: "malformed", Id: id(), Value: vec(3)},
 		{Kind: "Insert", Tag: "duplicate-id", Ds: "d0", Id: known[0], Value: vec(3)},
 		{Kind: "Update", Tag: "missing-metadata", Ds: "d0", Id: known[1], Value: vec(3)},
+		// keys accumulate over updates: each request within the bound, the merged metadata beyond it
+		{Kind: "Update", Tag: "accumulating-metadata-1", Ds: "d0", Id: known[3], Value: vec(3), Meta: manyKeysFrom(0, 40000)},
+		{Kind: "Update", Tag: "accumulating-metadata-2", Ds: "d0", Id: known[3], Value: vec(3), Meta: manyKeysFrom(40000, 40000)},
+		{Kind: "BatchUpdate", Tag: "accumulating-metadata-1", Ds: "d0", Items: []c12Item{{Id: known[2], Value: vec(3), Meta: manyKeysFrom(0, 40000)}}},
+		{Kind: "BatchUpdate", Tag: "accumulating-metadata-2", Ds: "d0", Items: []c12Item{{Id: known[2], Value: vec(3), Meta: manyKeysFrom(40000, 40000)}}},
 		{Kind: "Update", Tag: "unknown-item", Ds: "d0", Id: id(), Value: vec(3)},
 		{Kind: "Update", Tag: "wrong-dimension", Ds: "d0", Id: known[1], Value: vec(1)},
 		{Kind: "Update", Tag: "long-metadata-key", Ds: "d0", Id: known[1], Value: vec(3), Meta: map[string]string{longKey: "x"}},
@@ -432,6 +437,18 @@ func genC12Reqs(r *rng, n int) []c12Req {
 		j := r.intn(i + 1)
 		perm[i], perm[j] = perm[j], perm[i]
 	}
+	// two-step entries keep their order
+	pos := map[string]int{}
+	for at, pi := range perm {
+		pos[malformed[pi].Kind+":"+malformed[pi].Tag] = at
+	}
+	for key, at1 := range pos {
+		if strings.HasSuffix(key, "-1") {
+			if at2, ok := pos[strings.TrimSuffix(key, "-1")+"-2"]; ok && at2 < at1 {
+				perm[at1], perm[at2] = perm[at2], perm[at1]
+			}
+		}
+	}
 	created := 2
 	for _, pi := range perm {
 		if len(reqs) >= n {
@@ -456,6 +473,13 @@ func genC12Reqs(r *rng, n int) []c12Req {
 	return reqs
 }
 
+func manyKeysFrom(from, n int) map[string]string {
+	m := map[string]string{}
+	for i := from; i < from+n; i++ {
+		m[fmt.Sprintf("k%d", i)] = "v"
+	}
+	return m
+}
 func manyKeys(n int) map[string]string {
 	m := map[string]string{}
 	for i := 0; i < n; i++ {
